@@ -55,6 +55,7 @@ type Exec struct {
 	maxPaths   int
 	entryDecr  *Term
 	pendingTop []string
+	freshOnly  map[string]*Sort
 }
 
 type execAbort struct{ msg string }
